@@ -143,12 +143,15 @@ def check(ctx):
     ctx.attempt(_siblings, trs_to_dict, construct)
     ctx.attempt(_eq_hash)
     ctx.attempt(_scrub_order)
+    ctx.attempt(_sec_padding)
     ctx.attempt(_empty_means_undefined)
     ctx.attempt(_ocr_table)
     ctx.attempt(forward.check_all, module_suffixes=('trs.trs', 'tract.tract'))
     ctx.attempt(common.embedded_case_consistency, modules=('trs.trs',))
     ctx.attempt(common.clause_purity, [f for f in ctx.repo.funcs.values() if f.module.name.endswith(('trs.trs',))])
     ctx.attempt(common.parallel_shapes, [f for f in ctx.repo.funcs.values() if f.module.name.endswith(('trs.trs',))])
+    from .c13 import lockdown as _lockdown
+    ctx.attempt(_lockdown, ctx.repo.func('Tract.from_twprgesec'), only=('default_ns', 'default_ew'), source='config')
 
 
 def _subject_prov(ctx, fi):
@@ -371,6 +374,25 @@ def _empty_means_undefined(ctx):
             detail_bad="neither trs_to_dict nor the .trs setter maps an empty string / None to the undefined TRS any more "
                        "(only __init__ does): `t.trs = ''` and trs_to_dict('') yield the error TRS",
             key="DEFUSE|trs_to_dict|empty-undefined", where=td.loc)
+
+
+def _sec_padding(ctx):
+    """the section is left-padded to two digits (rjust / zfill), never cut:
+    a slice like [-2:] turns section 114 into 14 before the width check"""
+    fi = ctx.repo.func('TRS.construct_trs')
+    cuts = []
+    for a_ in walk_local(fi.node):
+        if isinstance(a_, ast.Assign) and norm(a_.targets[0]) == 'sec':
+            for x in ast.walk(a_.value):
+                if isinstance(x, ast.Subscript) and isinstance(x.slice, ast.Slice) and x.slice.lower is not None \
+                        and norm(x.slice.lower).startswith('-'):
+                    cuts.append(a_)
+    pads = [c for c in walk_local(fi.node) if isinstance(c, ast.Call) and isinstance(c.func, ast.Attribute)
+            and c.func.attr in ('rjust', 'zfill')]
+    ctx.tri(bool(pads) and not cuts, bool(cuts), 'DEFUSE', 'construct_trs pads the section, it never truncates it',
+            detail_bad=f"`{norm(cuts[0])[:60] if cuts else ''}` keeps only the last characters: a section of three or more "
+                       f"digits (100, 114) silently becomes a valid-looking two-digit section instead of the error section",
+            key="DEFUSE|construct_trs|sec-truncated", where=common.loc(fi, cuts[0]) if cuts else None)
 
 
 def _scrub_order(ctx):
